@@ -77,24 +77,71 @@ Fixpoint ints_agree (fs fs' : vfields) : bool :=
   | VCons _ _ r => ints_agree r fs'
   end.
 
+(* hereditarily identified: v and every object reached from it through dataclass-typed fields is identified at or below
+   the class it is loaded through (for a field: its declared type); Lists / Dicts on the way are empty *)
+Fixpoint hid (h : hier) (b : string) (v : value) {struct v} : bool :=
+  match v with
+  | VObj D fs => match find_class h D with
+                 | Some d => identified h b d && strs_eq (vf_keys fs) (field_names d) && hid_fields h d fs
+                 | None => false
+                 end
+  | _ => false
+  end
+with hid_fields (h : hier) (d : cdecl) (fs : vfields) {struct fs} : bool :=
+  match fs with
+  | VNil => true
+  | VCons k v r =>
+      match ftype_of d k, v with
+      | Some TInt, VInt _ => true
+      | Some (TDc b'), VObj _ _ => hid h b' v
+      | Some (TList _), VList VNil | Some (TDict _), VDict VNil => true
+      | _, _ => false
+      end && hid_fields h d r
+  end.
+
+(* loading WITHOUT dropping, level by level through the dataclass-typed fields: an identified class comes back as itself,
+   any other as a class at/below the loading class with every serialized field; integer fields keep their values *)
+Fixpoint spec_nondrop (h : hier) (b : string) (v v' : value) {struct v} : bool :=
+  match v, v' with
+  | VObj D fs, VObj R fs' =>
+      match find_class h D, find_class h R with
+      | Some d, Some r =>
+          strs_eq (vf_keys fs') (field_names r)
+          && (if identified h b d then String.eqb R D else in_cone h b r && has_all r (vf_keys fs))
+          && nd_fields h d fs fs'
+      | _, _ => false
+      end
+  | _, _ => false
+  end
+with nd_fields (h : hier) (d : cdecl) (fs fs' : vfields) {struct fs} : bool :=
+  match fs with
+  | VNil => true
+  | VCons k x r =>
+      match x with
+      | VInt z => match vf_get k fs' with Some (VInt z') => Z.eqb z z' | _ => false end
+      | VObj _ _ => match ftype_of d k, vf_get k fs' with
+                    | Some (TDc b'), Some x' => spec_nondrop h b' x x'
+                    | _, _ => false
+                    end
+      | _ => true                                   (* List / Dict items: decoded by the item type's own default *)
+      end && nd_fields h d r fs'
+  end.
+
 (* ---- the demand on an observed result ---- *)
 (* source = an instance v of class D, serialized with save_dc_types=save, loaded through b *)
 Definition spec_instance (h : hier) (b : string) (v : value) (save effdrop : bool) (obs : res value) : bool :=
   match v, obs with
   | VObj D fs, Ok v' =>
       if save then value_eqb v' v                    (* the exact classes, at every level, whatever the field sets *)
-      else match v', find_class h D with
-           | VObj R fs', Some d =>
-               match find_class h R with
-               | None => false
-               | Some r =>
-                   strs_eq (vf_keys fs') (field_names r) && ints_agree fs fs'
-                   && (if effdrop then String.eqb R b                                  (* exactly the base *)
-                       else if identified h b d then String.eqb R D && (negb (flatv v) || value_eqb v' v)
-                       else in_cone h b r && has_all r (vf_keys fs))                   (* some class with every field *)
-               end
-           | _, _ => false
-           end
+      else if effdrop then
+        match v' with
+        | VObj R fs' => match find_class h R with
+                        | Some r => strs_eq (vf_keys fs') (field_names r) && ints_agree fs fs' && String.eqb R b
+                        | None => false                                                  (* exactly the base *)
+                        end
+        | _ => false
+        end
+      else spec_nondrop h b v v' && (negb (hid h b v) || value_eqb v' v)   (* equal to the original when identified *)
   | _, _ => false                                    (* the serialized form of an instance always loads *)
   end.
 
